@@ -221,8 +221,15 @@ def run(prog, rep):
                     if t[0] == "call" and t[1] == ("attr", ("attr", SELF, "scipy_dist"), "fit"):
                         kw = dict(t[3])
                         sample = P([p for p in mf.positional_params if p != "self"][0])
+                        keys = set(kw)
+                        d_ = kw.get("**")
+                        if d_ is not None and d_[0] == "mutated":
+                            d_ = d_[1]
+                        if d_ is not None and d_[0] == "dict":
+                            # loc= / scale= given through the forwarded dictionary (start values first, fixed keywords added to it)
+                            keys |= {k_[1] for k_, _v in d_[1] if k_[0] == "const"}
                         ok = (t[2][:1] == (sample,) and len(t[2]) == 2 and t[2][1][0] == "star"
-                              and "loc" in kw and "scale" in kw)
+                              and "loc" in keys and "scale" in keys)
             rep.check(ok, "C12.call", f"{fam.ci.qualname}._fit_mle", mf.where(), "self.scipy_dist.fit(sample, *shape starts, loc=, scale=, **fixed)",
                       "generic fit must pass the unmodified sample, the shape start values positionally and loc=/scale= starts")
             continue
